@@ -78,7 +78,7 @@ def run(ctx):
     common.serial_pool()
     rng = ctx.rng
     d18_witness(ctx)
-    for _ in range(ctx.scale(120, 1500)):
+    for _ in range(ctx.scale(250, 2500)):
         it = rng.choice(["matched", "unmatched", "semantic"])
         nd = rng.choice([1, 2, 3])
         shape = tuple(rng.randint(2, 6) for _ in range(nd))
